@@ -11,6 +11,7 @@ CONSTANTS
   TaskGroups = {"tg"}
   GangApps = {"app1"}
   Guar <- MCGuar
+  WithRestart = FALSE
   PreemptOn = FALSE
   AsCoded = FALSE
   MaxHist = 11
